@@ -17,7 +17,8 @@ META = {
              'renaming); after generation the node multiset, every node attribute, the id/full-name uniqueness and '
              'both lookups are compared with the reference product asset x folded steps; non-trivial = at least 2 '
              'nodes and at least one defense or existence node or inherited step; distinct = digest(spec, model)'
-             "; added strata: refused re-adds of linked assets at the end of histories; in-place edit of one node's tags / ttc must show nowhere else (other nodes, a later graph); inheritance chains up to 15; interference layer; DEBUG log level"),
+             "; added strata: refused re-adds of linked assets at the end of histories; in-place edit of one node's tags / ttc must show nowhere else (other nodes, a later graph); inheritance chains up to 15; interference layer; DEBUG log level"
+             '; round 7: language graph built through four routes (dict, .mar, saved specification, MAL source)'),
     'assumptions': ['reference step fold and interval semantics in mtv/ref_sem.py',
                     'the implementation may choose the replacement for a duplicate name (S5); only uniqueness and '
                     '"an unused name is kept" are asserted on that choice'],
